@@ -268,7 +268,7 @@ extern "C" fn fatal_signal_handler(sig: libc::c_int) {
 pub fn install_signal_handlers() {
     unsafe {
         for s in [libc::SIGSEGV, libc::SIGBUS, libc::SIGILL, libc::SIGFPE] {
-            libc::signal(s, fatal_signal_handler as usize);
+            libc::signal(s, fatal_signal_handler as *const () as usize);
         }
     }
 }
